@@ -1863,7 +1863,8 @@ export class Element implements NodeCast {
           parent,
           newChildSubtreeSlotStart,
           newChildSubtreeSlotEnd,
-          posIndex,
+          // the index the new child now has (an append is given as a negative index)
+          posIndex >= 0 ? posIndex : childNodes.length - 1,
           !!oldParent,
         )
       }
@@ -2125,7 +2126,10 @@ export class Element implements NodeCast {
       parent,
       subtreeSlotStart,
       subtreeSlotEnd,
-      posIndex + newChildList.length - 1,
+      // the index of the last inserted child (an append is given as a negative index)
+      (posIndex >= 0 ? posIndex : childNodes.length - newChildList.length) +
+        newChildList.length -
+        1,
       false,
     )
 
